@@ -553,6 +553,102 @@ def cleanContent (E : Env) (cfg : Cfg) (st : St) (call : Call) : St × List Str 
   let r := lineLoop E cfg call (st, call.allowlist.getD []) [] call.lines.reverse
   if r.2.any (fun l => !l.isEmpty) then (r.1.1, r.2.reverse) else (r.1.1, [])
 
+/-! ## width-preserving mode (`width=True`, the `netstat_-neopa` spec): `IPv4._sub_ip_keep_width`, ip.py 84-116
+
+Only the IPv4 parser looks at `width`.  It can RAISE (`line[idx]` past the end when the substitute is the last
+thing on the line and the lengths differ, `line.index` when the substitute is not there); `parse_line` turns
+that into `Exception('SubIPError…')`, `clean_content` lets it escape and the spec is not emitted.  The database
+entry has been made by then.  `none` below = raised. -/
+
+/-- `line.index(k)`: position of the first occurrence -/
+def findIdx (k : Str) : Str → Nat → Option Nat
+  | [], i => if k.isEmpty then some i else none
+  | c :: cs, i => if k.isPrefixOf (c :: cs) then some i else findIdx k cs (i + 1)
+
+/-- the `while c != " "` loops: first position `≥ idx` holding a blank, else `dflt` -/
+def scanBlank (line : Str) (idx dflt : Nat) : Nat :=
+  match ((line.drop idx).findIdx? (· = ' ')) with
+  | some j => idx + j
+  | none => dflt
+
+/-- `_sub_ip_keep_width` after the database call: pad with / swallow blanks behind the first substitute -/
+def keepWidth (line ip new : Str) : Option Str :=
+  if ip.length > new.length then
+    let l := replace ip new line
+    match findIdx new l 0 with
+    | none => none
+    | some i =>
+      let idx := i + new.length
+      if idx ≥ l.length then none
+      else
+        let j := scanBlank l idx (l.length - 1)
+        some (l.take j ++ List.replicate (ip.length - new.length) ' ' ++ l.drop j)
+  else if new.length > ip.length then
+    let l := replace ip new line
+    match findIdx new l 0 with
+    | none => none
+    | some i =>
+      let idx := i + new.length
+      if idx ≥ l.length then none
+      else
+        let j := scanBlank l idx l.length
+        some (l.take j ++ l.drop (j + (new.length - ip.length)))
+  else some (replace ip new line)
+
+/-- one iteration of the loop of `IPv4.parse_line` with `width=True`; once raised nothing more happens -/
+def ipStepW (sl : St × Option Str) (ip : Str) : St × Option Str :=
+  match sl.2 with
+  | none => sl
+  | some line =>
+    if ipIgnore.contains ip then sl
+    else
+      let r := ip2db sl.1.ipDb (ip2int ip)
+      ({ sl.1 with ipDb := r.1, foundIp := sl.1.foundIp ++ [ip2int ip] }, keepWidth line ip (int2ip r.2))
+
+def ipStageW (E : Env) (st : St) (line : Str) : St × Option Str :=
+  (sortByLenDesc (E.findIp line)).foldl ipStepW (st, some line)
+
+/-- a parser in width mode: outer `none` = raised -/
+def applyStageW (E : Env) (cfg : Cfg) (s : LSt) (line : Str) : Stage → LSt × Option (Option Str)
+  | .ip => let r := ipStageW E s.1 line; ((r.1, s.2), r.2.map some)
+  | stg => let r := applyStage E cfg s line stg; (r.1, some r.2)
+
+def stageStepW (E : Env) (cfg : Cfg) (acc : LSt × Option (Option Str)) (stg : Stage) : LSt × Option (Option Str) :=
+  match acc.2 with
+  | none => acc
+  | some none => acc
+  | some (some []) => acc
+  | some (some (c :: cs)) => applyStageW E cfg acc.1 (c :: cs) stg
+
+def cleanLineW (E : Env) (cfg : Cfg) (call : Call) (s : LSt) (line : Str) : LSt × Option (Option Str) :=
+  (stages cfg call).foldl (stageStepW E cfg) (s, some (some (line.take maxLineLength)))
+
+/-- the loop over the reversed lines; a raising line ends the call -/
+def lineLoopW (E : Env) (cfg : Cfg) (call : Call) : LSt → List Str → List Str → LSt × Option (List Str)
+  | s, acc, [] => (s, some acc)
+  | s, acc, l :: ls =>
+    let r := cleanLineW E cfg call s l
+    match r.2 with
+    | none => (r.1, none)
+    | some (some x) => lineLoopW E cfg call r.1 (acc ++ [x]) ls
+    | some none => lineLoopW E cfg call r.1 acc ls
+
+/-- `clean_content(lines, …, width=True)`: the cleaner's state afterwards and the output, `none` = raised -/
+def cleanContentW (E : Env) (cfg : Cfg) (st : St) (call : Call) : St × Option (List Str) :=
+  let r := lineLoopW E cfg call (st, call.allowlist.getD []) [] call.lines.reverse
+  match r.2 with
+  | none => (r.1.1, none)
+  | some out => if out.any (fun l => !l.isEmpty) then (r.1.1, some out.reverse) else (r.1.1, some [])
+
+/-- a history mixing both modes: `(call, width)`; a raised call yields `none` and the history goes on -/
+def runHistoryW (E : Env) (cfg : Cfg) : St → List (Call × Bool) → St × List (Option (List Str))
+  | st, [] => (st, [])
+  | st, (c, w) :: cs =>
+    let r : St × Option (List Str) :=
+      if w then cleanContentW E cfg st c else let x := cleanContent E cfg st c; (x.1, some x.2)
+    let rest := runHistoryW E cfg r.1 cs
+    (rest.1, r.2 :: rest.2)
+
 /-- a history of calls on one `Cleaner`: final state and every call's output -/
 def runHistory (E : Env) (cfg : Cfg) : St → List Call → St × List (List Str)
   | st, [] => (st, [])
